@@ -77,6 +77,7 @@ static struct {
 	int bnull;
 	char viol[512];
 	size_t limit;
+	int cbrc;		/* status the callback returns */
 } got;
 
 static void
@@ -124,7 +125,7 @@ http_cb(void * cookie, struct http_response * r)
 	}
 	if (r == NULL) {
 		got.resp = 0;
-		return (0);
+		return (got.cbrc);
 	}
 	got.resp = 1;
 	got.status = r->status;
@@ -166,7 +167,8 @@ http_cb(void * cookie, struct http_response * r)
 	}
 	/* The callback owns the body. */
 	free(r->body);
-	return (0);
+	/* ... whatever status it returns (a non-zero status stops events_run). */
+	return (got.cbrc);
 }
 
 static int guard_fired;
@@ -376,6 +378,8 @@ main(int argc, char ** argv)
 		simk_reset(segseed);
 		memset(&got, 0, sizeof(got));
 		got.limit = limit;
+		/* one case in eight: the callback returns a non-zero status */
+		got.cbrc = ((segseed >> 11) % 8 == 0) ? 7 : 0;
 		livebefore = wa_live_count();
 		seqbefore = wa_total_allocs();
 
@@ -537,9 +541,14 @@ main(int argc, char ** argv)
 					cancelled = 1;
 					break;
 				}
-				if (events_run() != 0) {
-					addviol("loop:events_run-nonzero");
-					break;
+				{
+					int erc = events_run();
+
+					/* only the callback's own status may come back */
+					if (erc != 0 && !(got.ncb == 1 && erc == got.cbrc)) {
+						addviol("loop:events_run-nonzero");
+						break;
+					}
 				}
 				if (++iter > 30000000)
 					vh_die("too many iterations");
